@@ -18,6 +18,7 @@ import (
 	"strconv"
 	"strings"
 	"sync"
+	"time"
 
 	"github.com/blinklabs-io/gouroboros/cbor"
 	"github.com/blinklabs-io/gouroboros/consensus"
@@ -31,7 +32,7 @@ import (
 )
 
 func init() {
-	register(&Prop{ID: "C40", Gen: genC40, Run: runC40})
+	register(&Prop{ID: "C40", Gen: genC40, Run: runC40, Timeout: 3 * time.Minute})
 }
 
 type c40Vrf struct{ sk, pk []byte }
@@ -164,6 +165,7 @@ func g8SizeTamper(tamper string, b *consensus.HeaderBody, sig *[]byte) {
 		b.NonceVrfOutput = g8Cut(b.NonceVrfOutput)
 	}
 }
+
 var c40Ctxs = []string{"ok", "prevslot", "prevslot+", "blockno", "nohash", "badhash", "reg", "regbad"}
 
 func runC40(op string) string {
